@@ -231,6 +231,12 @@ def real_links(S):
 
 
 def check_case(case, counters, sets):
+    from ..vloop import private_plain_loop
+    with private_plain_loop():
+        return _check_case(case, counters, sets)
+
+
+def _check_case(case, counters, sets):
     from streamz import Stream
     import streamz.sinks as ssinks
     build, ops = case['build'], case['ops']
